@@ -5,6 +5,7 @@ CONSTANTS
   AppendGuard = TRUE
   FreshCookie = TRUE
   UseSecureDefault = TRUE
+  SnapshotDefault = FALSE
   Depth = 1
   Bases = {"x-a"}
   Casings = {0}
